@@ -339,7 +339,7 @@ let raw_of_target ~enc ~asz ~(hb : Z.t option * Z.t option * Z.t option) ~pos (t
 let field_size enc asz = match enc land 15 with 0 -> asz | 2 | 10 -> 2 | 3 | 11 -> 4 | 4 | 12 -> 8 | _ -> 0
 
 (* a well-formed .eh_frame (disjoint, non-empty FDE ranges, nop instructions) + matching header *)
-let gen_wf_hdr r ~(nfde : int) : hcase option =
+let gen_wf_hdr ?(instr = fun (_ : bool) (n : int) -> nops n) ?(overlap = false) r ~(nfde : int) : hcase option =
   let be = rand_int r 5 = 0 in
   let easz = pick r [| 8; 8; 4; 4; 2 |] in
   let alim = if easz = 2 then 0x7000 else 0x7fff0000 in
@@ -351,13 +351,13 @@ let gen_wf_hdr r ~(nfde : int) : hcase option =
     let e = renc () in
     let items = if e = 0 && rand_bool r then (rand_bool r, []) else (true, (if rand_bool r then [S.AS] else []) @ [S.AR (n_of_int e)]) in
     let items = if fst items = false && snd items <> [] then (true, snd items) else items in
-    { (rand_cie r ec ~items ()) with S.c_ver = n_of_int 1; S.c_fmt64 = rand_int r 8 = 0 } in
+    { (rand_cie r ec ~items ()) with S.c_ver = n_of_int 1; S.c_fmt64 = rand_int r 8 = 0; S.c_instr = instr true (rand_int r 4) } in
   let ncie = 1 + rand_int r 2 in
   let cies = List.init ncie (fun _ -> mk_cie ()) in
   (* layout: CIE0, then FDEs (shuffled order of address), CIE1 somewhere in the middle *)
   let step = max 4 ((alim - 0x100) / (nfde + 1) / 4) in
   let starts = Array.init nfde (fun i -> 0x100 + (i * 4 + rand_int r 3) * step / 1) in
-  let lens = Array.init nfde (fun i -> 1 + rand_int r (max 1 (step - 1))) in
+  let lens = Array.init nfde (fun i -> 1 + rand_int r (max 1 ((if overlap then 3 * step else step) - 1))) in
   let order = Array.init nfde (fun i -> i) in
   if rand_bool r then
     for i = nfde - 1 downto 1 do let j = rand_int r (i + 1) in let t = order.(i) in order.(i) <- order.(j); order.(j) <- t done;
@@ -368,7 +368,7 @@ let gen_wf_hdr r ~(nfde : int) : hcase option =
       cie_pos := !cie_pos @ [List.length !entries]; entries := !entries @ [S.ECie (List.nth cies 1)] end;
     let ci_idx = rand_int r (List.length !cie_pos) in
     let f = { S.f_fmt64 = rand_int r 8 = 0; f_cie = nat_of_int (List.nth !cie_pos ci_idx);
-              f_init = n_of_int 0; f_range = n_of_int lens.(fi); f_lsda = n_of_int 0; f_pad = []; f_instr = nops (rand_int r 5) } in
+              f_init = n_of_int 0; f_range = n_of_int lens.(fi); f_lsda = n_of_int 0; f_pad = []; f_instr = instr false (rand_int r 5) } in
     entries := !entries @ [S.EFde f]) order;
   let es0 = !entries in
   (* pass 1: decode with raw init 0 to learn each FDE's base, then hit the targets *)
@@ -430,10 +430,10 @@ let gen_wf_hdr r ~(nfde : int) : hcase option =
     List.map zmod64 [Z.pred i; i; Z.succ i; Z.pred e; e; Z.succ e]) rows in
   let addrs = if List.length addrs > 30 then List.filteri (fun i _ -> i < 12 || i mod 5 = 0) addrs else addrs in
   let addrs = addrs @ [Z.zero; Z.of_int (rand_int r alim); Z.pred (p2 64)] in
-  Some { hbe = be; hasz; hb; hbytes = ints_of_bytes hbytes; ec; ebytes = ints_of_bytes sec; wf = true; addrs }
+  Some { hbe = be; hasz; hb; hbytes = ints_of_bytes hbytes; ec; ebytes = ints_of_bytes sec; wf = not overlap; addrs }
 
-let rec gen_wf_hdr_retry r ~nfde k = if k = 0 then None else
-  match (try gen_wf_hdr r ~nfde with _ -> None) with Some h -> Some h | None -> gen_wf_hdr_retry r ~nfde (k - 1)
+let rec gen_wf_hdr_retry ?instr ?overlap r ~nfde k = if k = 0 then None else
+  match (try gen_wf_hdr ?instr ?overlap r ~nfde with _ -> None) with Some h -> Some h | None -> gen_wf_hdr_retry ?instr ?overlap r ~nfde (k - 1)
 
 (* perturb a well-formed header case: unsorted table, wrong count, damaged bytes *)
 let perturb_hdr r (h : hcase) : hcase =
@@ -683,4 +683,211 @@ let () =
     hdr_cases ~seed:(seed + 77) ~n ~raw:true (fun h ->
       if List.mem h.hasz [1; 2; 4; 8] && List.mem h.ec.asz [1; 2; 4; 8] then
         emit ("c05.nopanic any " ^ hcase_line "c05.hraw" h) "nopanic" "nopanic"))
+
+(* ================================================================== unwind_info_for_address (C05 x C06) *)
+module U = CfiUwi
+module RN = CfiRun
+
+(* instruction blobs from C06's wire encoder; [clean] streams evaluate without error for long.
+   No DW_CFA_set_loc here: its operand depends on the CIE's address encoding (stream c05.setloc). *)
+let wire_blob r ~(be : bool) ~(asz : int) ~(in_cie : bool) ~(clean : bool) ~(init : Z.t) (n : int) : Byte0.byte list =
+  let c = { S_c06.base_cfg with S_c06.be = be; asize = asz; caf = Z.one; daf = Z.of_int (-8); init; aarch64 = false } in
+  let loc = ref init in
+  S_c06.start_stream r ~in_cie ~clean;
+  let ws = S_c06.rand_wires r c loc n in
+  let ws = List.filter (function CfaSpec.WSetLoc _ -> false | CfaSpec.WNegateRaState -> false | _ -> true) ws in
+  bytes_of_ints (S_c06.enc_wires c ws)
+
+let pr_uwi_one (x : RN.row Res.res) = match x with
+  | Res.Ok rw -> "ok " ^ S_c06.pr_row rw
+  | Res.Err e -> "err " ^ Errnames.name e
+  | Res.Panic -> raise Panicked | Res.OutOfFuel -> raise Fuel
+
+(* every parsed FDE of the section, as the model sees it *)
+let model_fdes dbg (c : cfg) sec : M.fde list =
+  let sc = scfg_of c in
+  match M.entries_all dbg sc sec with
+  | Res.Ok (items, _) ->
+      List.filter_map (function M.IFde p -> (match M.fde_parse dbg sc sec p with Res.Ok f -> Some f | _ -> None) | _ -> None) items
+  | _ -> []
+
+(* the model is exact only where no encoded DW_CFA_set_loc is reached *)
+let all_setloc_plain (c : cfg) aarch64 sec =
+  List.for_all (fun f -> U.setloc_plain true c.be aarch64 f) (model_fdes true c sec)
+
+let uwi_probes r (c : cfg) aarch64 storage sec : Z.t list =
+  let caps = S_c06.caps_of_storage storage in
+  let acc = ref [] in
+  List.iter (fun (f : M.fde) ->
+    let i = z_of_n f.M.fd_init in
+    let e = (match M.fde_end false f with Res.Ok e -> z_of_n e | _ -> i) in
+    acc := [Z.pred i; i; Z.pred e; e] @ !acc;
+    (match RN.new_ctx caps with
+     | Res.Ok cx ->
+         let ((rows, _), _) = RN.fde_rows false caps (U.fde_in_of c.be aarch64 f) cx in
+         List.iteri (fun k (rw : RN.row) -> if k < 5 then
+           acc := [z_of_n rw.RN.r_start; Z.pred (z_of_n rw.RN.r_end)] @ !acc) rows
+     | _ -> ())) (model_fdes false c sec);
+  let l = List.sort_uniq Z.compare (List.map zmod64 !acc) in
+  let l = if List.length l > 16 then List.filteri (fun i _ -> i mod (1 + List.length l / 16) = 0) l else l in
+  l @ [Z.of_int (rand_int r 0x10000)]
+
+let uwi_model_lin dbg storage aarch64 (c : cfg) sec (addrs : Z.t list) : string = guard (fun () ->
+  let caps = S_c06.caps_of_storage storage in
+  match RN.new_ctx caps with
+  | Res.Ok cx0 ->
+      let cx = ref cx0 in
+      "ok" ^ String.concat "" (List.map (fun a ->
+        let (x, cx') = U.unwind_info_for_address dbg caps (scfg_of c) aarch64 sec !cx (n_of_z a) in
+        cx := cx'; " | " ^ pr_uwi_one x) addrs)
+  | _ -> "panic")
+
+let uwi_model_hdr dbg storage aarch64 (h : hcase) : string = guard (fun () ->
+  let caps = S_c06.caps_of_storage storage in
+  let hbs = sbases_of h.hb in
+  match M.hdr_parse dbg h.hbe hbs (n_of_int h.hasz) (bytes_of_ints h.hbytes) with
+  | Res.Err e -> "err " ^ Errnames.name e
+  | Res.Panic -> raise Panicked | Res.OutOfFuel -> raise Fuel
+  | Res.Ok hd ->
+    (match M.hdr_table hd with
+     | None -> "ok notable"
+     | Some hd ->
+       (match RN.new_ctx caps with
+        | Res.Ok cx0 ->
+            let cx = ref cx0 in
+            let sec = bytes_of_ints h.ebytes in
+            "ok" ^ String.concat "" (List.map (fun a ->
+              let (x, cx') = U.hdr_unwind_info_for_address dbg caps hbs hd (scfg_of h.ec) aarch64 sec !cx (n_of_z a) in
+              cx := cx'; " | " ^ pr_uwi_one x) h.addrs)
+        | _ -> "panic")))
+
+(* sections for the lookup: CIEs with instruction blobs, FDEs (possibly overlapping) with blobs *)
+let uwi_section r ~(clean : bool) : cfg * S.entry list =
+  let c = rand_cfg r ~eh:(rand_bool r) in
+  let c = { c with asz = pick r [| 8; 8; 4; 4; 2 |]; bsec = Some (Z.of_int 0x1000); btext = Some (Z.of_int 0x100); bdata = Some (Z.of_int 0x300) } in
+  let alim = if c.asz = 2 then 0x6000 else 0x400000 in
+  let ncie = 1 + rand_int r 2 in
+  let mk_cie () =
+    let enc = pick r (if c.asz = 2 then [| -1; 0x00; 0x02 |] else [| -1; -1; 0x00; 0x03; 0x04; 0x1b; 0x0b |]) in
+    let items = if enc < 0 then (if rand_int r 4 = 0 then (false, [S.AS]) else (false, []))
+      else (true, (if rand_bool r then [S.AS] else []) @ [S.AR (n_of_int enc)]) in
+    let ci = rand_cie r c ~items () in
+    let asz = cie_enc_asz c ci in
+    { ci with S.c_caf = n_of_int (pick r [| 1; 1; 2; 4 |]); S.c_daf = cz_of_int (pick r [| -8; -4; 1; 8 |]);
+              S.c_instr = wire_blob r ~be:c.be ~asz ~in_cie:true ~clean ~init:Z.zero (rand_int r 4) } in
+  let cies = List.init ncie (fun i -> (i, mk_cie ())) in
+  let nfde = 1 + rand_int r 4 in
+  let overlap = rand_int r 3 = 0 in
+  let fdes = List.init nfde (fun k ->
+    let (idx, ci) = List.nth cies (rand_int r ncie) in
+    let asz = cie_enc_asz c ci in
+    let lim = min alim (if asz = 1 then 200 else if asz = 2 then 0x6000 else alim) in
+    let start = if overlap then 0x40 + rand_int r (lim / 4) else 0x40 + k * (lim / 5) + rand_int r 16 in
+    let len = if overlap then 1 + rand_int r (lim / 3) else 1 + rand_int r (lim / 6) in
+    let fmt = match S.find_R ci.S.c_items with Some e -> int_of_n e land 15 | None -> 0 in
+    let pcrel = (match S.find_R ci.S.c_items with Some e -> int_of_n e land 0x70 = 0x10 | None -> false) in
+    let init_raw = if pcrel then zmod64 (Z.of_int (start - 0x1000)) else Z.of_int start in
+    ignore fmt;
+    S.EFde { S.f_fmt64 = rand_int r 8 = 0; f_cie = nat_of_int idx; f_init = n_of_z init_raw; f_range = n_of_int len;
+             f_lsda = n_of_int 0; f_pad = [];
+             f_instr = wire_blob r ~be:c.be ~asz ~in_cie:false ~clean ~init:(Z.of_int start) (rand_int r 10) }) in
+  (c, List.map (fun (_, ci) -> S.ECie ci) cies @ fdes)
+
+let () =
+  register "c05.uwi" ~doc:"UnwindSection::unwind_info_for_address and EhHdrTable::unwind_info_for_address through gimli::UnwindContext (one context reused for all probes of a case; heap and custom storages): sections whose CIEs/FDEs carry C06 wire-form instruction blobs, FDE ranges disjoint or overlapping, probes at every FDE and row boundary; model = CfiRd lookup + adapter fde_in_of + CfiRun table; harness oracle: the row = own scan + fde.rows() walk" (fun ~seed ~n emit ->
+    let lin storage aarch64 (c : cfg) (bytes : int list) (addrs : Z.t list) =
+      let sec = bytes_of_ints bytes in
+      let cs = Printf.sprintf "c05.uwi L %d %s %s %s%s" storage (b01 aarch64) (cfg_toks c) (hex_of_ints bytes)
+                 (String.concat "" (List.map (fun z -> " " ^ Z.to_string z) addrs)) in
+      both emit cs (fun dbg -> uwi_model_lin dbg storage aarch64 c sec addrs) in
+    let hdrc storage aarch64 (h : hcase) =
+      let cs = Printf.sprintf "c05.uwi H %d %s %s" storage (b01 aarch64)
+                 (let l = hcase_line "x" h in String.sub l 2 (String.length l - 2)) in
+      both emit cs (fun dbg -> uwi_model_hdr dbg storage aarch64 h) in
+    (* the grid of c05.ent (nop instruction blobs): every augmentation order x kind x format *)
+    let k = ref 0 in
+    grid_sections (fun c es ->
+      incr k;
+      if n >= 3000 || !k mod 8 = 0 then begin
+        if Streams.mine () then begin
+          let sec = encode c es in
+          lin 0 false c (ints_of_bytes sec) (uwi_probes (mk_rng (seed + !k)) c false 0 sec)
+        end else Streams.skip ()
+      end);
+    (* every case has its own generator state, so a shard only builds the cases it owns *)
+    for i = 1 to n do
+      if not (Streams.mine ()) then Streams.skip () else begin
+        let r = mk_rng (seed * 1000003 + i) in
+        let clean = rand_int r 4 <> 0 in
+        let (c, es) = uwi_section r ~clean in
+        let storage = pick r [| 0; 0; 0; 5; 2; 1; 4 |] in
+        let bytes0 = ints_of_bytes (encode c es) in
+        let bytes = if rand_int r 6 = 0 then mutate_body r (List.map int_of_n (S.offsets (sparams_of c) es)) bytes0 else bytes0 in
+        let bytes = if all_setloc_plain c false (bytes_of_ints bytes) then bytes else bytes0 in
+        lin storage false c bytes (uwi_probes r c false storage (bytes_of_ints bytes))
+      end
+    done;
+    (* header path: well-formed and overlapping *)
+    for i = 1 to n / 4 + 4 do
+      if not (Streams.mine ()) then Streams.skip () else begin
+        let r = mk_rng (seed * 7000003 + i) in
+        let instr in_cie k = wire_blob r ~be:false ~asz:8 ~in_cie ~clean:true ~init:(Z.of_int 0x100) (if in_cie then min k 2 else k) in
+        match gen_wf_hdr_retry ~instr ~overlap:(i mod 3 = 0) r ~nfde:(1 + rand_int r 6) 10 with
+        | Some h -> hdrc (pick r [| 0; 0; 5; 2 |]) false h
+        | None -> Streams.skip ()
+      end
+    done);
+  register "c05.setloc" ~doc:"the operand of DW_CFA_set_loc as the first FDE instruction, read through fde.instructions(): every valid FDE address encoding (and none) x address sizes x bases present/absent x boundary values; mutated tails" (fun ~seed ~n emit ->
+    let r = mk_rng seed in
+    let case (c : cfg) (bytes : int list) =
+      let sec = bytes_of_ints bytes in
+      both emit (sec_case "c05.setloc" c bytes) (fun dbg -> guard (fun () ->
+        let sc = scfg_of c in
+        let (items, _) = get (M.entries_all dbg sc sec) in
+        "ok" ^ String.concat "" (List.filter_map (function
+          | M.IFde p ->
+              (match M.fde_parse dbg sc sec p with
+               | Res.Ok f ->
+                   Some (" " ^ (match U.first_set_loc dbg sc f with
+                     | Res.Ok None -> "n"
+                     | Res.Ok (Some (a, _)) -> "S" ^ string_of_n a
+                     | Res.Err e -> "E" ^ Errnames.name e
+                     | Res.Panic -> raise Panicked | Res.OutOfFuel -> raise Fuel))
+               | _ -> Some " p")
+          | _ -> None) items))) in
+    let mk (c : cfg) enc raw tail =
+      let items = if enc < 0 then (false, []) else (true, [S.AR (n_of_int enc)]) in
+      let ci = { (rand_cie r c ~items ()) with S.c_ver = n_of_int 1; S.c_fmt64 = false; S.c_instr = [] } in
+      let fmt = if enc < 0 then 0 else enc land 15 in
+      let operand = S.enc_value (n_of_int fmt) (n_of_int c.asz) c.be (n_of_z raw) in
+      let f = { S.f_fmt64 = false; f_cie = nat_of_int 0; f_init = n_of_int 64; f_range = n_of_int 64; f_lsda = n_of_int 0; f_pad = [];
+                f_instr = byte_of_int 1 :: (operand @ bytes_of_ints tail) } in
+      ints_of_bytes (encode c [S.ECie ci; S.EFde f]) in
+    (* every valid encoding (absolute init fields need the base of the application too) *)
+    Array.iter (fun enc ->
+      List.iter (fun asz ->
+        List.iter (fun bases ->
+          let (a, b, d) = bases in
+          let c = { eh = true; be = false; asz; bsec = a; btext = b; bdata = d } in
+          let fmt = enc land 15 in
+          List.iter (fun v -> if S.value_fits (n_of_int fmt) (n_of_int asz) (n_of_z v) then begin
+              case c (mk c enc v [0; 0]); case { c with be = true } (mk { c with be = true } enc v [])
+            end)
+            [Z.zero; Z.one; Z.of_int 0x7f; Z.of_int 0x80; Z.of_int 0x7fff; Z.of_int 0x8000; Z.pred (p2 (8 * asz)); p2 (8 * asz - 1);
+             zmod64 Z.minus_one; zmod64 (Z.of_int (-0x8000)); zmod64 (Z.neg (p2 31)); Z.pred (p2 31); mask64; p2 63])
+          [ (Some (Z.of_int 0x1000), Some (Z.of_int 0x2000), Some (Z.of_int 0x3000)); (None, None, None);
+            (Some (Z.pred (p2 (8 * asz))), Some mask64, Some (Z.pred (p2 (8 * asz)))) ]) [8; 4; 2; 1]) valid_encs;
+    (* no encoding: plain address *)
+    List.iter (fun asz -> List.iter (fun eh ->
+      let c = { eh; be = false; asz; bsec = None; btext = None; bdata = None } in
+      List.iter (fun v -> case c (mk c (-1) v [0])) [Z.zero; Z.one; Z.pred (p2 (8 * asz)); p2 (8 * asz - 1)]) [true; false]) [8; 4; 2; 1];
+    for _ = 1 to n do
+      let c = rand_cfg r ~eh:(rand_int r 4 <> 0) in
+      let enc = if rand_int r 6 = 0 then -1 else pick_enc r in
+      let fmt = if enc < 0 then 0 else enc land 15 in
+      let aszv = if c.asz >= 1 && c.asz <= 8 then c.asz else 8 in
+      let bytes = mk { c with asz = aszv } enc (raw_for r fmt aszv) (rand_bytes r (rand_int r 3)) in
+      let bytes = if rand_int r 5 = 0 then mutate r bytes else bytes in
+      case { c with asz = aszv } bytes
+    done)
 let init () = ()
